@@ -94,3 +94,36 @@ def finalize(db):
                 Raises("OverflowError", mode="may", when=f"periodic(params, now) and {NEXT} is None and not dt_in_range(now + params.delay.defer_by)")],
         modifies=STORE,
     )
+
+
+def finalize_reject(db):
+    STORE = [f"{C}.lists", f"{C}.zmem", f"{C}.zscore", f"{C}.hmem", f"{C}.hval"]
+    MARK_DEAD = f"(old(r_hhas({C}, fname(key), '_reject_to')) and old(r_hval({C}, fname(key), '_reject_to')) == 'dead')"
+    HAS_PARAMS = f"old(r_hhas({C}, fname(key), 'parameters'))"
+    db.contract(
+        fn=B + "reject", serves=["C01", "C05", "C15", "C03"], clock=["now"], ghost_init={"decoded": "Parameters"},
+        requires=["valid_key(key)", f"r_hhas({C}, fname(key), 'parameters')"],
+        ensures={
+            "no_longer_held": f"not r_zhas({C}, 'processing', sname(key))",
+            # back to the category it was taken from: the marker written when it was taken decides
+            "dead_stays_dead": f"implies({MARK_DEAD}, r_list({C}, qdead(key)) == seq1(sname(key)) + old(r_list({C}, qdead(key)))"
+                               f" and r_list({C}, qn(key)) == old(r_list({C}, qn(key))))",
+            "never_deliverable_earlier": f"implies(not {MARK_DEAD} and ghost.decoded.delay.next_execution_time is not None,"
+                                         f" r_zhas({C}, qd(key), sname(key)) and r_list({C}, qn(key)) == old(r_list({C}, qn(key)))"
+                                         f" and earliest_take_us(r_zscore({C}, qd(key), sname(key))) >= us(ghost.decoded.delay.next_execution_time) - 1000)",
+            "waiting_returns_to_the_front": f"implies(not {MARK_DEAD} and imm(ghost.decoded, now),"
+                                            f" r_list({C}, qn(key)) == old(r_list({C}, qn(key))) + seq1(sname(key)))",
+            "data_kept": f"r_hhas({C}, fname(key), 'parameters') and r_hval({C}, fname(key), 'parameters') == old(r_hval({C}, fname(key), 'parameters'))",
+        },
+        raises=[Raises("ConnectionError", mode="may", modifies=["ghost.decoded"]),
+                Raises("Exception", mode="may", anysub=True, modifies=["ghost.decoded"])],
+        modifies=STORE + ["ghost.decoded"],
+    )
+
+
+_fin0 = finalize
+
+
+def finalize(db):  # noqa: F811
+    _fin0(db)
+    finalize_reject(db)
